@@ -208,10 +208,11 @@ def st_idiom(draw, allow_load_q=False):
     elif stress:
         # many carbon-carbon gates in one subroutine
         body = []
+        kind2 = draw(st.sampled_from(["cnot", "cphase", "mixed"]))  # one gate kind throughout, or a mix
         for _ in range(draw(st.integers(15, 20))):
             a, b = draw(st.sampled_from([(1, 2), (2, 1)]))
             ra, rb = qregs[0], qregs[1]
-            body += [f"set {ra} {a}", f"set {rb} {b}", f"{draw(st.sampled_from(['cnot', 'cphase']))} {ra} {rb}"]
+            body += [f"set {ra} {a}", f"set {rb} {b}", f"{draw(st.sampled_from(['cnot', 'cphase'])) if kind2 == 'mixed' else kind2} {ra} {rb}"]
         info["cc"] = True
         info["stress"] = True
     elif split and draw(st.integers(0, 1)) == 0 and loop_regs:
